@@ -303,15 +303,15 @@ def _static_cg(
         neg_energy_eps = -eps * jnp.abs(energy)
         # print(f"energy increased", file=sys.stderr)
         info = jnp.where(
-            energy_diff < neg_energy_eps,
+            (energy_diff < neg_energy_eps) & (info < -1),
             jnp.where(_raise_nonposdef, -1, i),
             info,
         )
         if absdelta is not None:
             info = jnp.where(
-                (energy_diff < absdelta) & (i >= miniter) & (info != -1), 0, info
+                (energy_diff < absdelta) & (i >= miniter) & (info < -1), 0, info
             )
-        info = jnp.where((i >= maxiter) & (info != -1), i, info)
+        info = jnp.where((i >= maxiter) & (info < -1), i, info)
 
         d = d * jnp.maximum(0, gamma / previous_gamma) + r
 
